@@ -418,24 +418,15 @@ def run(chk):
                         first_diff(split_impl(ia)[1], mb), small), no_input=True)
     if not quick and not bad:
         try:
-            impl_asan = vlib.build_harness('c14_data', ['c14_data.c'], variant='asan')
+            # AddressSanitizer is what this pass is for (section overflows).  UBSan checks that fire on
+            # code outside the property are switched off: typed stores of lref values at unaligned
+            # offsets (alignment is the user's business per MIR.md), `addr + disp` with a wild disp
+            # (pointer-overflow; the wrapped value is what is asked for), and the interpreter's
+            # C-level shifts / signed arithmetic in expression functions (C02's subject)
+            impl_asan = vlib.build_harness('c14_data', ['c14_data.c'], variant='asan',
+                                           defs=['-fno-sanitize=alignment,pointer-overflow,shift,signed-integer-overflow'])
             env = {'ASAN_OPTIONS': 'detect_leaks=0'}
             sample = cases[:nfixed] + cases[nfixed:nfixed + 4000]
-            # the engines store lref values through a typed pointer (mir-interp.c generate_icode,
-            # mir-gen.c gen_setup_lrefs); at an offset that is not a multiple of 8 UBSan calls that a
-            # misaligned store (harmless on x86-64, alignment is the user's business per MIR.md), so
-            # the sanitizer pass only takes sequences whose lref items are 8-aligned
-            lay = run_parallel(model, [c + ' @ ' for c in sample])[1]
-
-            def lrefs_aligned(c, m):
-                ks = kinds_of(c)
-                for t in m.split():
-                    if '@' in t and '+' in t:
-                        i, rest = t.split('@')
-                        if i.isdigit() and int(i) < len(ks) and ks[int(i)] == 'L' and int(rest.split('+')[1]) % 8:
-                            return False
-                return True
-            sample = [c for c, m in zip(sample, lay) if lrefs_aligned(c, m)]
             bad2, _ = correspond(impl_asan, model, sample, env=env)
             for c, a, b in bad2[:2]:
                 chk.finding('asan:' + c, dict(case=c, impl=a, model=b),
